@@ -166,6 +166,7 @@ let c_bop = function
   | C ("BArgCompl", [p; l]) -> BArgCompl (c_path p, c_list c_str l)
   | C ("BArgFns", [p; l]) -> BArgFns (c_path p, c_list c_nat l)
   | C ("BSynArg", [p; a; d]) -> BSynArg (c_path p, c_str a, c_str d)
+  | C ("BSelf", [p; n; d]) -> BSelf (c_path p, c_str n, c_str d)
   | C ("BSetFn", [p; i]) -> BSetFn (c_path p, c_nat i)
   | C ("BHelp", [n; l]) -> BHelp (c_str n, c_list c_str l)
   | _ -> fail_sx "bop"
